@@ -52,6 +52,7 @@ type Sim struct {
 	wake  chan struct{}
 
 	Step    int
+	Seq     int // global event sequence number (one per event-log line)
 	Start   time.Time
 	log     []string
 	logHash hash.Hash
@@ -119,6 +120,7 @@ func (s *Sim) Logf(format string, args ...any) {
 		fmt.Fprintln(os.Stderr, line)
 	}
 	s.mu.Lock()
+	s.Seq++
 	s.logHash.Write([]byte(line))
 	s.logHash.Write([]byte{'\n'})
 	if s.KeepLog {
